@@ -11,6 +11,8 @@ import (
 	"sort"
 	"strings"
 	"time"
+
+	"golang.org/x/tools/go/ssa"
 )
 
 type Obligation struct {
@@ -25,6 +27,7 @@ func (o Obligation) Key() string { return o.Rule + " " + o.Construct }
 
 // Ctx is the state of one property check.
 type Ctx struct {
+	listBusy    map[*ssa.Phi]bool
 	pkgIters    []string
 	P           *Program
 	M           *Model
